@@ -110,26 +110,7 @@ class DensityMatrixCompiler(CompilerBase):
             )
             state.apply_unitary(unitary)
 
-        elif isinstance(op, ops.ClassicalControlledPairOperationBase):
-            projectors = dm.projectors_zbasis(
-                n_quantum, q_index(op.control, op.control_type)
-            )
-
-            # apply an gate on the target qubit conditioned on the measurement outcome = 1
-            unitary = dm.get_one_qubit_gate(
-                n_quantum,
-                q_index(op.target, op.target_type),
-                self.ops[op.__class__](*params),
-            )
-
-            outcome = state.apply_measurement_controlled_gate(
-                projectors,
-                unitary,
-                measurement_determinism=self.measurement_determinism,
-            )
-
-            classical_registers[op.c_register] = outcome
-
+        # MeasurementCNOTandReset is itself a ClassicalControlledPairOperationBase: it has to be matched first
         elif isinstance(op, ops.MeasurementCNOTandReset):
             projectors = dm.projectors_zbasis(
                 n_quantum, q_index(op.control, op.control_type)
@@ -153,6 +134,26 @@ class DensityMatrixCompiler(CompilerBase):
 
             classical_registers[op.c_register] = outcome
             state.apply_channel(reset_kraus_ops)
+
+        elif isinstance(op, ops.ClassicalControlledPairOperationBase):
+            projectors = dm.projectors_zbasis(
+                n_quantum, q_index(op.control, op.control_type)
+            )
+
+            # apply an gate on the target qubit conditioned on the measurement outcome = 1
+            unitary = dm.get_one_qubit_gate(
+                n_quantum,
+                q_index(op.target, op.target_type),
+                self.ops[op.__class__](*params),
+            )
+
+            outcome = state.apply_measurement_controlled_gate(
+                projectors,
+                unitary,
+                measurement_determinism=self.measurement_determinism,
+            )
+
+            classical_registers[op.c_register] = outcome
 
         elif isinstance(op, ops.MeasurementZ):
             projectors = dm.projectors_zbasis(
